@@ -11,7 +11,7 @@ CONSTANTS Checked, MaxItems
 
 Lits == { x.l : x \in Literals }
 
-VARIABLES kind,      \* "enum" | "fields-strict" | "fields-nonstrict" | "const"
+VARIABLES kind,      \* "enum" | "fields-strict" | "fields-nonstrict" | "const" | "enumvalue"
           run,       \* running state: prev / nextNeg
           n,         \* items processed
           last,      \* result of the last step
@@ -21,7 +21,7 @@ VARIABLES kind,      \* "enum" | "fields-strict" | "fields-nonstrict" | "const"
 vars == <<kind, run, n, last, lastTy, failed>>
 NoRes == [ok |-> FALSE, stored |-> Zero, meant |-> Zero]
 
-Init == /\ kind \in {"enum", "fields-strict", "fields-nonstrict", "const"}
+Init == /\ kind \in {"enum", "fields-strict", "fields-nonstrict", "const", "enumvalue"}
         /\ run = MinusOne            \* prev := -1 / nextNegativeID := -1
         /\ n = 0 /\ last = NoRes /\ lastTy = "i64" /\ failed = FALSE
 
@@ -46,7 +46,12 @@ Const == /\ kind = "const" /\ n < 1
               /\ last' = r /\ lastTy' = ty /\ failed' = ~r.ok
          /\ n' = n + 1 /\ UNCHANGED <<kind, run>>
 
-Next == EnumItem \/ Field \/ Const
+\* an integer literal where an enum value is expected (Checked = FALSE: matched after narrowing to 32 bits)
+EnumValue == /\ kind = "enumvalue" /\ n < 1
+             /\ \E lit \in Lits : LET r == EnumValueStep(lit, ~Checked) IN last' = r /\ failed' = ~r.ok
+             /\ lastTy' = "i32" /\ n' = n + 1 /\ UNCHANGED <<kind, run>>
+
+Next == EnumItem \/ Field \/ Const \/ EnumValue
 Spec == Init /\ [][Next]_vars
 
 \* C09: every number the compiler accepts equals the number meant by the source and fits its type
